@@ -32,7 +32,9 @@ func Run(c *corr.Ctx) {
 	if c.Want("C03") || c.Want("C06") {
 		vp9HeaderCases(c, c.N(300, 20000))
 	}
+	growCases(c)
 	for _, s := range specs {
+		hostileStats(c, s, c.N(150, 15000))
 		cu.RunAll(c, s)
 	}
 }
